@@ -166,6 +166,69 @@ def oracle_fsc(ck, rng):
                          oracle="loader_fsc")
 
 
+def oracle_loader_fsc_variants(ck, rng, fscf):
+    """(a) a mask given as an image converter is derived from the average and then *applied* like any other mask;
+    (b) a loader group reports, for every group, the FSC of that group's own two half maps"""
+    import polars as pl
+    from acryo import SubtomogramLoader, Molecules, pipe
+    for it in range(2 if ck.tier == "quick" else 10):
+        tomo = rng.normal(size=(24, 24, 24)).astype(np.float32)
+        # a bright blob so that an Otsu-type converter yields a non-constant mask
+        zz, yy, xx = np.meshgrid(*[np.arange(24)] * 3, indexing="ij")
+        nm = int(rng.integers(6, 10))
+        pos = rng.integers(8, 16, size=(nm, 3)).astype(float)
+        for p_ in pos:
+            tomo += (4.0 * np.exp(-((zz - p_[0]) ** 2 + (yy - p_[1]) ** 2 + (xx - p_[2]) ** 2) / (2 * 1.5 ** 2))).astype(np.float32)
+        ld = SubtomogramLoader(tomo, Molecules(pos, features={"g": [j % 3 for j in range(nm)]}), order=1, output_shape=(8, 8, 8))
+        seed = int(rng.integers(0, 100)); nset = int(rng.integers(1, 3))
+        fails = []
+        # (a)
+        conv = pipe.soft_otsu(sigma=1.0, radius=1.0)
+        res = ld.fsc_with_halfmaps(mask=conv, seed=seed, n_set=nset, squeeze=False)
+        df, halves, msk = res
+        msk = np.asarray(msk)
+        if msk.shape != (8, 8, 8) or float(msk.max() - msk.min()) < 1e-3:
+            fails.append("converter mask is constant (oracle set-up)") if False else None
+        hs = np.stack([np.asarray(halves[0]), np.asarray(halves[1])], axis=1)     # (n_set, 2, z, y, x)
+        hs = hs - hs.mean()
+        dfq = 1.5 / 8
+        for s_ in range(nset):
+            fq, f = fscf(hs[s_, 0] * msk, hs[s_, 1] * msk, dfq)
+            if not np.allclose(df[f"FSC-{s_}"].to_numpy(), f, atol=1e-4, equal_nan=True):
+                fq2, f2 = fscf(hs[s_, 0], hs[s_, 1], dfq)
+                fails.append("converter mask: reported FSC is not that of the masked half maps"
+                             + (" (it is the FSC of the unmasked ones)" if np.allclose(df[f"FSC-{s_}"].to_numpy(), f2, atol=1e-4, equal_nan=True) else ""))
+        same = ld.fsc_with_halfmaps(mask=msk.astype(np.float32), seed=seed, n_set=nset, squeeze=False)[0]
+        if not np.allclose(same.to_numpy(), df.to_numpy(), atol=1e-4, equal_nan=True):
+            fails.append("converter mask and the same mask given as an array give different FSC")
+        # (b)
+        grp = ld.groupby("g")
+        gf = grp.fsc(seed=seed, n_set=nset, dfreq=dfq)
+        gh = grp.average_split(n_set=nset, seed=seed)
+        for key, sub in grp:
+            stack = np.stack([np.asarray(sub.load(j)) for j in range(len(sub.molecules))]).reshape(len(sub.molecules), -1).astype(np.float64)
+            h_ = np.asarray(gh[key])
+            if h_.ndim == 4:            # a single set is returned without the set axis
+                h_ = h_[None]
+            if h_.shape[0] != nset:
+                fails.append(f"group {key}: {h_.shape[0]} split sets instead of {nset}")
+                continue
+            for s_ in range(nset):
+                for half in (0, 1):
+                    tgt = h_[s_, half].reshape(-1).astype(np.float64)
+                    w, res_, *_ = np.linalg.lstsq(stack.T, tgt, rcond=None)
+                    if np.abs(stack.T @ w - tgt).max() > 1e-3 * (1 + np.abs(tgt).max()):
+                        fails.append(f"group {key}: half map {half} of set {s_} is not a combination of that group's own subtomograms")
+                hm = h_[s_]             # (the group variant correlates the half maps as they are, without removing the mean)
+                fq, f = fscf(hm[0], hm[1], dfq)
+                if not np.allclose(gf[key][f"FSC-{s_}"].to_numpy(), f, atol=1e-4, equal_nan=True):
+                    fails.append(f"group {key}: reported FSC is not that of the group's own half maps")
+        ck.oracle_count("loader_fsc_variants", 1, 1)
+        for fl in sorted(set(f_ for f_ in fails if f_)):
+            ck.violation(what=f"loader.fsc: {fl}", inp={"seed": seed, "n_set": nset, "n": nm}, key={"site": "loader-fsc-variants", "law": fl[:40]},
+                         oracle="loader_fsc_variants")
+
+
 def run(ck: common.Check):
     ck.design_ref = "DESIGN.md §6 C17"
     ck.trusted_base = TB
@@ -183,6 +246,8 @@ def run(ck: common.Check):
     rng = np.random.default_rng(ck.seed + 1717)
     corr_fsc(ck, rng)
     oracle_fsc(ck, rng)
+    from acryo._utils import fourier_shell_correlation as fscf
+    oracle_loader_fsc_variants(ck, np.random.default_rng(ck.seed + 171717), fscf)
 
 
 def replay(data):
